@@ -125,8 +125,8 @@ fn esc_plain_then_any_ascii() {
     std::mem::forget(out);
 }
 
-// Probed and dropped (DESIGN.md E15): the same obligation for 2-, 3- and 4-byte characters and for
-// two / three ASCII characters. `String::push(c)` on a multi-byte `c`, and any push after the
+// Probed and dropped (DESIGN.md E15): the same obligation for 2-, 3- and 4-byte characters, for
+// two / three ASCII characters, and for any ASCII character followed by a plain one (600 s time-out). `String::push(c)` on a multi-byte `c`, and any push after the
 // output length has become symbolic (second character), reserve a symbolic number of bytes and
 // CBMC does not finish (300 s). Non-ASCII characters take the `c => out.push(c)` arm unchanged —
 // by reading, not by the solver; outside the claim.
